@@ -155,9 +155,9 @@ def plan_C19(tier, seed, q):
         specs = [{"n": 2, "l": 6, "ctx": True}, {"n": 3, "l": 5, "ctx": True, "sample": 3}, {"n": 3, "l": 4, "ctx": True, "race": 5}]
         jobs = sched_jobs("C19", tier, seed, specs, shards=8, timeout=3000) + e2e_jobs("C19", tier, seed, "ctx", 240, 4000, race_t=400)
     return {"level": "exploration",
-            "rule": SCHED_RULE % ", cancel context i (only after request i has been written)" + "; every operation is a CallWithContext (with and "
+            "rule": SCHED_RULE % ", cancel context i (after request i has been written, or - with client pipelining - while it is still queued behind an earlier, gated write)" + "; every operation is a CallWithContext (with and "
             "without context buffer); oracles: after a cancel event the call has returned at quiescence, siblings complete once with "
-            "f(args); plus e2e profile 'ctx': deadlines shorter than the handler delay on the real server, return instant == deadline "
+            "f(args), and a sibling whose request was written returns as soon as its response arrives whatever was abandoned before; plus e2e profile 'ctx': deadlines shorter than the handler delay on the real server, return instant == deadline "
             "in virtual time, context buffer used iff the encoded reply fits, canary bytes intact",
             "jobs": jobs, "min_evaluations": 1000, "min_distinct": 500, "parallel": 14, "assumptions": V_ASSUME}
 
@@ -185,16 +185,22 @@ def plan_C03(tier, seed, q):
         full = [[0, 5, 6, 1][seed % 4]]
         sampled = [m for m in range(9) if m not in full]
         jobs = cut_jobs("C03", tier, seed, full, sampled, 7, 12)
+        jobs += shard("vt", "sclose", "C03", tier, seed, 3000, 4, timeout=1500)
     else:
         jobs = cut_jobs("C03", tier, seed, list(range(9)), [], 1, 16, timeout=3000)
         jobs += cut_jobs("C03", tier, seed, [0, 5], [], 1, 8, kind="vt-race", timeout=3000)
-    return {"level": "fault_enumeration", "exhaustive": not q,
+        jobs += shard("vt", "sclose", "C03", tier, seed, 60000, 16, timeout=3000)
+    return {"level": "fault_enumeration", "exhaustive": False,
             "exhaustive_parts": ["every (direction, byte offset, kind) of the conversation for one mode combination; every 7th offset for the other eight" if q else
                                  "every (direction, byte offset, kind) and every (step, Close) of the conversation for all nine mode combinations"],
             "rule": CUT_RULE + "; oracles at quiescence: every operation has returned; a call whose "
             "complete response frame lies inside the bytes delivered to the client succeeded with f(args) (or its own error text); every other "
             "outstanding call failed, with ErrShutdown when it had been written and the end was orderly; operations started after the end "
-            "was observable fail with ErrShutdown in zero virtual time; a Call issued afterwards fails at once writing nothing",
+            "was observable fail with ErrShutdown in zero virtual time; a Call issued afterwards fails at once writing nothing; plus engine 'sclose' "
+            "(PRNG-sampled, not enumerated): connections with 1-5 open streams, blocked readers and - in a third of the scenarios - goroutines writing "
+            "bursts of stream messages at the very instant the connection is closed, cut or the server closed; afterwards a Call on the connection "
+            "returns ErrShutdown in zero virtual time (a lock-order deadlock between the teardown sweep and a stream operation freezes the bubble "
+            "and is reported by the watchdog)",
             "jobs": jobs, "min_evaluations": 2000, "min_distinct": 1000, "parallel": 16, "assumptions": V_ASSUME + [
                 "quick enumerates every byte offset for one mode combination (chosen by the seed) and every 7th offset for the other eight; thorough enumerates all nine completely"]}
 
